@@ -206,7 +206,7 @@ def body(ctx, case):
 
 
 SUBS = [
-    Sub(name="grid_descriptions", body=body, strategy=lambda ctx: case_strategy(ctx), quick=8, thorough=480,
+    Sub(name="grid_descriptions", body=body, strategy=lambda ctx: case_strategy(ctx), quick=8, thorough=360,
         lanes=("f64", "f32"), f32_fraction=0.25, quick_shards=2,
         rule="one random scene under UniformGrid / QuasiUniformGrid / explicit RectilinearGrid descriptions"),
 ]
